@@ -108,6 +108,24 @@ def shards(tier):
     uc = unit_cases(tier)
     for i in range(0, len(uc), 5):
         out.append({'unit_cases': [(F.to_json(f), st) for f, st in uc[i:i + 5]]})
+    for i in range(len(modular_cases(tier))):
+        out.append({'modular': i})
+    return out
+
+
+def modular_cases(tier):
+    """bounded-future formulas presented with named sub-formulas (shared nodes in the AST that pastify() has to rewrite once per use)"""
+    from . import c09
+    px, py = F.PX, F.PY
+    fut = list(c09.base_formulas('quick')[1]) + [
+        ('implies', px, ('eventually', (1, 2), ('not', px))),
+        ('always', (0, 1), ('implies', py, ('and', px, ('eventually', (1, 2), ('not', px))))),
+        ('or', ('next', ('next', px)), ('and', px, ('next', px))),
+    ]
+    out = []
+    for f in fut:
+        for subs, text, defs, top in c09.variants_any(f, 4 if tier == 'quick' else 20):
+            out.append((f, subs, text))
     return out
 
 
@@ -126,6 +144,12 @@ def run_shard(shard, tier, res):
         st, m = c02.explore_formula(res, mod, f, p, model=m)
         res.sample({'spec': m.text, 'horizon': m.delay, 'states': st.states, 'transitions': st.transitions,
                     'fixpoint': st.fixpoint, 'max_depth': st.maxdepth}, 1)
+    if 'modular' in shard:
+        f, subs, text = modular_cases(tier)[shard['modular']]
+        m = c02.DtOnlineModel(f, p['values'], text=text, pastify=True, delay=int(refsem.horizon(f)), subspecs=tuple(subs), offline=False)
+        st, m = c02.explore_formula(res, mod, f, p, model=m, extra={'subspecs': list(subs)})
+        res.flags['modular_specs'] += 1
+        res.sample({'spec': m.text, 'sub_specs': list(subs), 'horizon': m.delay, 'states': st.states, 'transitions': st.transitions}, 1)
     for fj, style in shard.get('unit_cases', []):
         f = F.from_json(fj)
         m = model_for(f, p['values'], style)
